@@ -1,0 +1,171 @@
+//go:build verif
+
+package period
+
+// Machine-checked contracts for package period (comment-only; see klog/contracts_verif.go). Property C15.
+// Dates are compared through their day number dn(y, m, d) in the proleptic Gregorian calendar (A-CAL).
+
+//@ spec dy(d klog.Date) int = d.(*klog.date).year
+//@ spec dm(d klog.Date) int = d.(*klog.date).month
+//@ spec dd(d klog.Date) int = d.(*klog.date).day
+//@ spec isdate(d klog.Date) bool = typeis(d, *klog.date)
+//@ spec qof(m int) int = ediv(m + 2, 3)
+
+//@ type Quarter invariant isdate(self.date)
+//@ type Month invariant isdate(self.date)
+//@ type Year invariant isdate(self.date)
+//@ type Week invariant isdate(self.date)
+//@ type Day invariant isdate(self.date)
+//@ type periodData invariant isdate(self.since) && isdate(self.until)
+
+//@ func NewPeriod
+//@ requires isdate(since) && isdate(until)
+//@ ensures typeis(result, *periodData) && fresh(result) && result.(*periodData).since == since && result.(*periodData).until == until
+
+// ---------------------------------------------------------------------------------------------
+// Quarter
+
+// Period: the quarter's first and last day, and the date lies inside.
+//@ func (Quarter).Period
+//@ let y = dy(q.date)
+//@ let k = qof(dm(q.date))
+//@ ensures typeis(result, *periodData)
+//@ ensures dy(result.(*periodData).since) == y && dm(result.(*periodData).since) == 3*k - 2 && dd(result.(*periodData).since) == 1
+//@ ensures dy(result.(*periodData).until) == y && dm(result.(*periodData).until) == 3*k && dd(result.(*periodData).until) == dim(y, 3*k)
+
+// Previous: a date in the quarter directly before (quarters numbered 4*year + quarter).
+//@ func (Quarter).Previous
+//@ requires 4 * dy(q.date) + qof(dm(q.date)) > 1
+//@ ensures 4 * dy(result.date) + qof(dm(result.date)) == 4 * dy(q.date) + qof(dm(q.date)) - 1
+//@ loop 1 invariant isdate(result) && dy(result) == dy(q.date) && qof(dm(result)) == qof(dm(q.date)) && klog.ddn(result) <= klog.ddn(q.date)
+//@ loop 1 decreases klog.ddn(result)
+
+// ---------------------------------------------------------------------------------------------
+// Year
+
+//@ func (Year).Period
+//@ let yy = dy(y.date)
+//@ ensures typeis(result, *periodData)
+//@ ensures dy(result.(*periodData).since) == yy && dm(result.(*periodData).since) == 1 && dd(result.(*periodData).since) == 1
+//@ ensures dy(result.(*periodData).until) == yy && dm(result.(*periodData).until) == 12 && dd(result.(*periodData).until) == 31
+
+//@ func (Year).Previous
+//@ requires dy(y.date) >= 1
+//@ ensures dy(result.date) == dy(y.date) - 1
+
+// ---------------------------------------------------------------------------------------------
+// Month
+
+// Period: the first and the last day of the date's month.
+//@ func (Month).Period
+//@ let y = dy(m.date)
+//@ let mo = dm(m.date)
+//@ ensures typeis(result, *periodData)
+//@ ensures dy(result.(*periodData).since) == y && dm(result.(*periodData).since) == mo && dd(result.(*periodData).since) == 1
+//@ ensures dy(result.(*periodData).until) == y && dm(result.(*periodData).until) == mo && dd(result.(*periodData).until) == dim(y, mo)
+//@ loop 1 invariant isdate(until) && isdate(since) && dy(until) == dy(m.date) && dm(until) == dm(m.date) && 28 <= dd(until) && dy(since) == dy(m.date) && dm(since) == dm(m.date) && dd(since) == 1
+//@ loop 1 decreases 31 - dd(until)
+
+// Previous: a date in the month directly before (months numbered 12*year + month).
+//@ func (Month).Previous
+//@ requires 12 * dy(m.date) + dm(m.date) > 1
+//@ ensures 12 * dy(result.date) + dm(result.date) == 12 * dy(m.date) + dm(m.date) - 1
+//@ loop 1 invariant isdate(result) && dy(result) == dy(m.date) && dm(result) == dm(m.date) && klog.ddn(result) <= klog.ddn(m.date)
+//@ loop 1 decreases klog.ddn(result)
+
+// ---------------------------------------------------------------------------------------------
+// Week
+
+// wk(n): the Monday-based index (0..6) of day number n.
+//@ spec wk(n int) int = emod(n + 5, 7)
+
+// Period: Monday to Sunday around the date.
+//@ func (Week).Period
+//@ let n = klog.ddn(w.date)
+//@ ensures typeis(result, *periodData)
+//@ ensures klog.ddn(result.(*periodData).since) == n - wk(n) && klog.ddn(result.(*periodData).until) == n - wk(n) + 6
+//@ loop 1 invariant isdate(since) && klog.ddn(since) <= klog.ddn(w.date) && klog.ddn(w.date) - klog.ddn(since) <= wk(klog.ddn(w.date)) && wk(klog.ddn(since)) == wk(klog.ddn(w.date)) - (klog.ddn(w.date) - klog.ddn(since))
+//@ loop 1 decreases wk(klog.ddn(since))
+//@ loop 2 invariant isdate(until) && isdate(since) && klog.ddn(since) == klog.ddn(w.date) - wk(klog.ddn(w.date)) && klog.ddn(until) >= klog.ddn(w.date) && klog.ddn(until) - klog.ddn(w.date) <= 6 - wk(klog.ddn(w.date)) && wk(klog.ddn(until)) == wk(klog.ddn(w.date)) + (klog.ddn(until) - klog.ddn(w.date))
+//@ loop 2 decreases 6 - wk(klog.ddn(until))
+
+//@ func (Week).Previous
+//@ requires klog.ddn(w.date) >= 7
+//@ ensures klog.ddn(result.date) == klog.ddn(w.date) - 7
+
+// ---------------------------------------------------------------------------------------------
+// Hashes: each hash packs its components into disjoint bit fields (value + 2^bits * next), so two dates have the
+// same hash exactly when they agree on every component (lemmas below).
+
+//@ func (Day).Hash
+//@ ensures result == dd(d.date) + 64 * dm(d.date) + 64 * 32 * dy(d.date)
+
+//@ func (Week).Hash
+// (for 0000-01-01 and 0000-01-02 the ISO year is -1 and uint32(year) wraps; the formula is stated for the other dates)
+//@ requires klog.ddn(w.date) - wk(klog.ddn(w.date)) + 3 >= 0
+//@ ensures result == klog.isoweek(klog.ddn(w.date)) + 128 * klog.isoyear(klog.ddn(w.date))
+
+//@ func (Month).Hash
+//@ ensures result == dm(m.date) + 32 * dy(m.date)
+
+//@ func (Quarter).Hash
+//@ ensures result == qof(dm(q.date)) + 8 * dy(q.date)
+
+//@ func (Year).Hash
+//@ ensures result == dy(y.date)
+
+// Two dates are in the same bucket exactly when they lie in the same period.
+//@ lemma weekBucket(a int, b int)
+//@ requires 0 <= a && a <= 3652424 && 0 <= b && b <= 3652424
+//@ ensures (klog.isoweek(a) + 128 * klog.isoyear(a) == klog.isoweek(b) + 128 * klog.isoyear(b)) == (a - wk(a) == b - wk(b))
+//@ ensures 1 <= klog.isoweek(a) && klog.isoweek(a) <= 53
+
+//@ lemma dayBucket(y1 int, m1 int, d1 int, y2 int, m2 int, d2 int)
+//@ requires validdate(y1, m1, d1) && validdate(y2, m2, d2) && 0 <= y1 && y1 <= 9999 && 0 <= y2 && y2 <= 9999
+//@ ensures (d1 + 64 * m1 + 64 * 32 * y1 == d2 + 64 * m2 + 64 * 32 * y2) == (y1 == y2 && m1 == m2 && d1 == d2)
+//@ ensures (m1 + 32 * y1 == m2 + 32 * y2) == (y1 == y2 && m1 == m2)
+//@ ensures (qof(m1) + 8 * y1 == qof(m2) + 8 * y2) == (y1 == y2 && qof(m1) == qof(m2))
+
+// The period contains its date, and the previous period ends the day before the period begins
+// (stated over the dates that Period()/Previous() are proved to return).
+//@ lemma periodContains(y int, m int, d int)
+//@ requires validdate(y, m, d) && 0 <= y && y <= 9999
+//@ ensures dn(y, m, 1) <= dn(y, m, d) && dn(y, m, d) <= dn(y, m, dim(y, m))
+//@ ensures dn(y, 3*qof(m) - 2, 1) <= dn(y, m, d) && dn(y, m, d) <= dn(y, 3*qof(m), dim(y, 3*qof(m)))
+//@ ensures dn(y, 1, 1) <= dn(y, m, d) && dn(y, m, d) <= dn(y, 12, 31)
+//@ ensures dn(y, m, d) - wk(dn(y, m, d)) <= dn(y, m, d) && dn(y, m, d) <= dn(y, m, d) - wk(dn(y, m, d)) + 6
+
+//@ lemma monthTiling(y int, m int)
+//@ requires 0 <= y && y <= 9999 && 1 <= m && m <= 12 && 12*y + m > 1
+//@ ensures dn(ite(m == 1, y - 1, y), ite(m == 1, 12, m - 1), dim(ite(m == 1, y - 1, y), ite(m == 1, 12, m - 1))) + 1 == dn(y, m, 1)
+
+//@ lemma quarterTiling(y int, q int)
+//@ requires 0 <= y && y <= 9999 && 1 <= q && q <= 4 && 4*y + q > 1
+//@ ensures dn(ite(q == 1, y - 1, y), ite(q == 1, 12, 3*q - 3), dim(ite(q == 1, y - 1, y), ite(q == 1, 12, 3*q - 3))) + 1 == dn(y, 3*q - 2, 1)
+
+//@ lemma yearTiling(y int)
+//@ requires 1 <= y && y <= 9999
+//@ ensures dn(y - 1, 12, 31) + 1 == dn(y, 1, 1)
+
+//@ lemma weekTiling(n int)
+//@ requires 7 <= n
+//@ ensures (n - 7) - wk(n - 7) + 6 + 1 == n - wk(n)
+
+// ---------------------------------------------------------------------------------------------
+// constructors from a date
+
+//@ func NewWeekFromDate
+//@ requires isdate(d)
+//@ ensures result.date == d
+//@ func NewMonthFromDate
+//@ requires isdate(d)
+//@ ensures result.date == d
+//@ func NewQuarterFromDate
+//@ requires isdate(d)
+//@ ensures result.date == d
+//@ func NewYearFromDate
+//@ requires isdate(d)
+//@ ensures result.date == d
+//@ func NewDayFromDate
+//@ requires isdate(d)
+//@ ensures result.date == d
